@@ -79,15 +79,24 @@ Section Machine.
     | _, _ => Raise IndexError
     end.
 
-  (* process_in_comment: code part and the comment texts it appends *)
+  (* process_in_comment (after fix 0398ce9): the line is scanned; a quote character opens a literal that the same character
+     closes; the first "--" outside a literal starts the comment, whose text is the whole rest of the line *)
+  Fixpoint comment_start (quote : option ascii) (s : string) : option nat :=
+    match s with
+    | EmptyString => None
+    | String c r =>
+      match quote with
+      | Some qc => option_map S (comment_start (if Ascii.eqb c qc then None else quote) r)
+      | None => if Ascii.eqb c "'" || Ascii.eqb c """" then option_map S (comment_start (Some c) r)
+                else if String.prefix IN_COM s then Some O
+                else option_map S (comment_start None r)
+      end
+    end.
   Definition process_in_comment (line : string) : res (string * list string) :=
-    do b <- re_search_b RegexAst.re_in_comment line;
-    if b then Ok (line, [])
-    else
-      match split line IN_COM with
-      | a :: b :: _ => Ok (a, [b])
-      | _ => Raise IndexError
-      end.
+    match comment_start None line with
+    | Some i => Ok (take i line, [drop (i + 2) line])
+    | None => Ok (line, [])
+    end.
 
   (* pre_process_line: the code line, the new comment-related state, the comment texts appended *)
   Definition pre_process_line (m : lm) (line0 : string) : res (string * bool * list string * list string) :=
